@@ -178,6 +178,8 @@ def scenarios(ctx):
         init = CONNECTED + ((('setwin', 0, win),) if win != 1 else ())
         out.append(Std('%s-window-w%d' % (profile, win), profile=profile, init=init, windows=(1, 2, 3),
                        budgets=dict(sub=3, unsub=2 if q else 3, ack=1 if q else 2, setwin=2, tick=0 if q else 1)))
+    out.append(Std('sub-reenter', profile='sub', init=CONNECTED, reenter=('sub', 'unsub'), windows=(1, 2),
+                   budgets=dict(sub=2, unsub=1, ack=2, setwin=1)))
     for clean in (True, False):
         out.append(Std('sub-loss-%s' % ('clean' if clean else 'persist'), profile='sub',
                        init=(('connect', 0, clean, 0, 4), ('connack', 0, 0, False), ('setwin', 0, 2)),
